@@ -119,6 +119,7 @@ class Sym:
         self.stack = []
         self.bv = 0            # bound-variable level counter
         self.nscope = 0
+        self.loop_log = []     # every loop evaluated (also inside closures and inlined helpers)
         self.visited = set()   # def paths whose bodies were evaluated (the unit itself and everything inlined into it)
         self.tries = []        # `?` applied to values that are not rows: reported if the value is otherwise unused
         self.loops = []
@@ -822,6 +823,7 @@ class Sym:
         self.cur = saved
         self.env = env0
         self.cur.append(("loop", lid_, kind, header, [(i, init[l]) for i, l in enumerate(carried)], eff, at))
+        self.loop_log.append(self.cur[-1])
         for i, l in enumerate(carried):
             self.env[l] = ("after", lid_, i)
         return ("unit",)
@@ -1125,10 +1127,12 @@ class Sym:
         mt = a.get("mt", "")
         args = H.call_args(n)
         if mt.startswith("X:format") or mt.startswith("X:concat"):
-            return ("fmt",)
+            vals = [self.ev(x) for x in self.macro_user_args(n)]
+            return ("call", "fmt!", (), tuple(vals)) if vals else ("fmt",)
         if mt.startswith(("X:println", "X:print", "X:eprintln", "X:writeln", "X:write")) and n[0] in ("call", "mcall"):
-            # one row per macro invocation (the outermost call of the expansion)
-            return self.new_op(mt.split(":", 1)[1] + "!", [], at)
+            # one row per macro invocation (the outermost call of the expansion), with the caller's arguments
+            vals = [self.ev(x) for x in self.macro_user_args(n)]
+            return self.new_op(mt.split(":", 1)[1] + "!", vals, at, res="fresh")
         if a.get("ctor"):
             vals = tuple(self.ev(x) for x in args)
             return ("ctor", ctor_name(a["ctor"]), vals)
@@ -1171,6 +1175,9 @@ class Sym:
             return ("call", short_path(target), (), tuple(vals))
         # ---- local functions: inline unless opaque
         f = self.c.fn(target) if target.startswith(self.c.name + "::") or target.startswith("gamedig") else None
+        if f is not None and (a.get("owner") or "").startswith("trait:") and (not inst or inst == decl) and not f.get("impl_trait"):
+            # a trait method called on a type the context does not fix: the trait's default body is not what runs
+            f = None
         if f is not None and f.get("hir") and not self.is_opaque(target) and target not in self.stack and self.frames[-1].depth < MAX_DEPTH:
             r = self.inline(f, n, args, ga, at, mode, tail)
             if r is not None:
@@ -1197,6 +1204,21 @@ class Sym:
             return r
         gtxt = ("<" + ",".join(tga) + ">") if tga and last in ("parse", "collect", "try_into", "try_from", "sum", "from_str", "from_str_radix", "size_of") else ""
         return ("call", name + gtxt, (), tuple(vals))
+
+    def macro_user_args(self, n):
+        """the caller-written expressions inside a macro expansion (nodes whose span is not from the expansion), in order"""
+        out = []
+
+        def walk(x):
+            for c in x[2:]:
+                if not (isinstance(c, list) and c and isinstance(c[0], str)):
+                    continue
+                if isinstance(c[1], dict) and "at" in c[1] and not c[1].get("mt") and c[0] not in ("arm", "fld", "block", "stmt", "let", "pbind", "pwild", "ptstruct", "pstruct", "ptuple"):
+                    out.append(c)
+                else:
+                    walk(c)
+        walk(n)
+        return out
 
     def ext_name(self, n, target, args):
         a = n[1]
